@@ -314,7 +314,13 @@ pub fn run(args: &Args) {
     let mut evaluations = 0usize;
     let n = if args.thorough() { 1500 } else { 400 };
     let max_variants = if args.thorough() { 16 } else { 12 };
-    let nests = nest_matrix(&mut rng, args.thorough(), 40);
+    let mut nests = nest_matrix(&mut rng, args.thorough(), 40);
+    for (k, p) in case_list_programs().into_iter().enumerate() {
+        nests.push((format!("case-list {}", k), p));
+    }
+    for (k, p) in empty_block_programs().into_iter().enumerate() {
+        nests.push((format!("empty-block {}", k), p));
+    }
     let n_nests = nests.len();
     let mut nests = nests.into_iter();
     for k in 0..(n + n_nests) {
